@@ -169,6 +169,13 @@ class _Tasks(Entry):
     def size(self, b):
         return len(b[self.FIELDS[0]][0])
 
+    # presentation: the class returns shape (num_tasks,), the functional a 0-dim tensor for num_tasks=1
+    def out_val(self, r):
+        v = impl_val(r)
+        return v[0] if isinstance(v, list) and len(v) == 1 and not isinstance(v[0], list) else v
+
+    fn_val = out_val
+
 
 class ClickThroughRateE(_Tasks):
     name, cls, model, fn_model = "ClickThroughRate", M.ClickThroughRate, "rk_ctr", "rk_ctr_fn"
@@ -202,6 +209,8 @@ class WeightedCalibrationE(_Tasks):
 
     def gen_rows(self, rng, cfg, n, field):
         if field == "x":
+            if rng.random() < 0.15:      # nothing accumulated on the input side either
+                return [[F(0)] * n for _ in range(cfg["num_tasks"])]
             return [[F(rng.randint(0, 8), 8) for _ in range(n)] for _ in range(cfg["num_tasks"])]
         mode = rng.choice(["01", "01", "01", "zeros", "ones"])
         def v():
@@ -259,7 +268,10 @@ class _Retrieval(Entry):
     # while compute() tests "1 not in target" / sums target on the un-pruned state); the generic
     # implementation-only tree stream cannot attribute it precisely, vlib/parts/C01_ranking.py does.
     merge_exact = False
-    merge_forms = ("list", "tuple")   # a generator argument is iterated twice by merge_state (D18)
+    # class != functional(concatenation) is a genuine defect here too (D3/D4); the generic C03 stream
+    # can only attribute by class name, vlib/parts/C03_ranking.py runs the same comparison and
+    # attributes precisely (the functionals themselves are tied through FN_ENTRIES in C08).
+    has_functional = False
     recall = False
 
     def configs(self, rng, quick=True):
